@@ -43,7 +43,11 @@ def check_doc(text, scales=(1, 2, Fraction(3, 2))):
     except Exception:
         return out
     for k in scales:
-        html = mr.render(k)
+        try:
+            html = mr.render(k)
+        except Exception as e:  # noqa
+            out.append(("C09:render-raises:%s" % type(e).__name__, "render(%r): %s" % (k, str(e)[:200])))
+            return out
         root, problems = htmltok.tree(html)
         tables = [n for n in root.iter() if n.tag == "table" and "rg-table" in n.classes()]
         trees = []    # (group index, tree) in document order
